@@ -16,7 +16,7 @@ META = {
                   "relationship-type filter x source-only/target-only flags (incl. the refused both-flags case) x 2 ways of splitting the data "
                   "over composite members, through MemorySource, MemoryStore, CompositeDataSource and Environment, by id string and by object, "
                   "with and without extra filters; deduplicate over all 3-element lists from a 2x3 (id, version) table.",
-    "level_text_more": 'Also: two-level composites (a composite as member of the composite that carries the filter; filter on the Environment) and two versions within one millisecond; deduplicate on library objects as well as dicts. After answering through an outer composite / environment an inner composite carries no filters and answers unfiltered; the composite\'s choice of the latest answer decided by pysym.',
+    "level_text_more": 'Also: two-level composites (a composite as member of the composite that carries the filter; filter on the Environment) and two versions within one millisecond; deduplicate on library objects as well as dicts. After answering through an outer composite / environment an inner composite carries no filters and answers unfiltered; the composite\'s choice of the latest answer decided by pysym. Rounds 5-6: the query as a FilterSet object used twice; objects without versions under attached filters; a FileSystemSource among the members; an Environment built over the still empty composite; deduplicate() by instant.',
     "level_note": "Selector-enumerated (CrossHair picks the configuration, the real code runs concretely). Member sources are MemorySources. "
                   "Graphs with more than 2 relationships / 3 nodes and more than 3 members are outside the claim.",
     "technique": "CrossHair-driven bounded enumeration of member assignments / relationship graphs on the real composite and navigation code vs a "
